@@ -586,6 +586,18 @@ func (env *Env) selector(e *SExpr) Val {
 	}
 	// ghost field
 	if g, ok := ex.L.contracts.GhostFields[e.Name]; ok {
+		// a ghost field of an embedded struct (e.g. the ghost lock state of an embedded sync.RWMutex)
+		if base, _ := derefType(x.typ); base != nil {
+			if st, ok := base.Underlying().(*types.Struct); ok && typeName(base) != g.Owner {
+				for i := 0; i < st.NumFields(); i++ {
+					f := st.Field(i)
+					if f.Embedded() && (typeName(f.Type()) == g.Owner || strings.HasSuffix(typeName(f.Type()), "."+g.Owner)) {
+						x = env.fieldOf(x, i)
+						break
+					}
+				}
+			}
+		}
 		comp, ty := env.ghostFieldComp(g)
 		ref := x.t
 		if x.lv != nil && x.lv.kind == "struct" {
